@@ -60,6 +60,14 @@ class OutArray(object):
         self.stores = []
 
     def sym_store(self, interp, k, v, node):
+        if isinstance(k, Slot) and isinstance(v, P):
+            prev = 'PREV<%s,%d>' % (self.name, k.seq)
+            if prev in v.atoms():
+                rest = normal(v - P.atom(prev))
+                if prev in rest.atoms():
+                    raise CheckerError('line %d: slot of %s updated non-additively' % (node.lineno, self.name))
+                self.stores.append((k, rest, '+=', list(interp.path.conds), node.lineno, tuple(g.var for g in interp.generic)))
+                return
         self.stores.append((k, v, '=', list(interp.path.conds), node.lineno, tuple(g.var for g in interp.generic)))
 
     def sym_augstore(self, interp, k, op, v, node):
@@ -76,6 +84,19 @@ class OutArray(object):
         self.stores.append((k, v, '+=', list(interp.path.conds), node.lineno, tuple(g.var for g in interp.generic)))
 
     def sym_load(self, interp, k, node):
+        fill = getattr(self, 'fill', None)
+        if fill is not None:
+            # array filled by an external contract (e.g. quadrature points): loads are select atoms
+            kt = normal(k).text() if isinstance(k, P) else str(k)
+            a = '%s[%s]' % (fill, kt)
+            if isinstance(k, P):
+                d = deps_of(k)
+                if d:
+                    ATOM_DEPS[a] = d
+            return P.atom(a)
+        if isinstance(k, Slot):
+            # arr[c] = arr[c] + e  : the previous content of the slot is a token that sym_store turns into '+='
+            return P.atom('PREV<%s,%d>' % (self.name, k.seq))
         raise CheckerError('line %d: read of output array %s inside the kernel' % (node.lineno, self.name))
 
     def sym_getattr(self, interp, name):
